@@ -1,5 +1,6 @@
 import Batteries.Tactic.Alias
 import GenlmModel.Proofs.Linear
+import GenlmModel.Proofs.LimLinear
 /-! # C15 — algebraic path solver -/
 namespace Genlm.Props.C15
 alias solve_left_equation := Genlm.solveLeft_eq
@@ -12,4 +13,19 @@ alias scc_checker_exact := Genlm.sccCheck_iff
 alias scc_checker_sound := Genlm.sccCheck_sound
 alias closure_scc_correct := Genlm.closureScc_correct
 alias closure_reference_closed := Genlm.closureRef_closed
+/-! ## at the limit (ℝ≥0∞, star a = Σ_n aⁿ): closures ARE path sums, solvers return LEAST solutions -/
+alias star_unfold := Genlm.star_ennreal_unfold
+alias star_least := Genlm.star_ennreal_least
+/-- entry (i, j) of the Lehmann closure is the total weight of ALL paths from i to j (= Σ_k (A^k) i j), for every finite
+weighted graph, any pivot order -/
+alias lehmann_is_path_sum := Genlm.lehmann_is_path_sum
+alias path_weight_is_matrix_power := Genlm.pathW_eq_matrix_pow
+alias reference_closure_is_path_sum := Genlm.closureRef_is_path_sum
+/-- the SCC-based closure on any decomposition accepted by the verified checker equals the path sums, hence the reference closure -/
+alias closure_scc_is_path_sum := Genlm.closureScc_is_path_sum
+alias closure_scc_eq_reference := Genlm.closureScc_eq_closureRef
+/-- solve_left(b) = b·A*, solves x = xA + b and lies below every pre-fixed point (THE least solution); likewise solve_right -/
+alias solve_left_least := Genlm.solveLeft_least
+alias solve_right_least := Genlm.solveRight_least
+alias solvers_least_of_checked_blocks := Genlm.solve_least_of_sccCheck
 end Genlm.Props.C15
